@@ -367,7 +367,7 @@ fn mode_template(cx: &mut Case, pre: &Pre, espec: &EnvSpec, env: &ElementsTxEnv)
     // behind / in front of other non-zero data (`drop J` / `take J` on a pair with a neighbour).
     // The C evaluator hands a jet its live read frame at whatever cursor it has; the Rust
     // machine copies the argument out first: the two must still agree.
-    let placement = if s.is_unit() { 0 } else { [0usize, 0, 1, 2][st.below(4)] };
+    let placement = if s.is_unit() { 0 } else { [0usize, 0, 1, 2, 3][st.below(5)] };
     let call = {
         let jn = b.push(Ir::Jet(j));
         if s.is_unit() {
@@ -382,6 +382,14 @@ fn mode_template(cx: &mut Case, pre: &Pre, espec: &EnvSpec, env: &ElementsTxEnv)
             };
             if placement == 0 {
                 b.push(Ir::Comp(an, jn))
+            } else if placement == 3 {
+                // the jet runs twice on one frame (argument twice): whatever the first call
+                // leaves behind in the read frame's cursor is seen by the second
+                let p = b.push(Ir::Pair(an, an));
+                let tk = b.push(Ir::Take(jn));
+                let dr = b.push(Ir::Drop(jn));
+                let both = b.push(Ir::Pair(tk, dr));
+                b.push(Ir::Comp(p, both))
             } else {
                 let nt = crate::gen::types::gen_ty(&mut st, 70, 4);
                 let nv = gen_val(&mut st, &nt);
@@ -398,7 +406,8 @@ fn mode_template(cx: &mut Case, pre: &Pre, espec: &EnvSpec, env: &ElementsTxEnv)
             }
         }
     };
-    cx.label(["argument alone in its frame", "argument behind a neighbour (drop J)", "argument in front of a neighbour (take J)"][placement]);
+    cx.label(["argument alone in its frame", "argument behind a neighbour (drop J)", "argument in front of a neighbour (take J)", "jet called twice on one frame"][placement]);
+    let t = if placement == 3 { RTy::prod(t.clone(), t.clone()) } else { t };
     let probe = Prog { nodes: b.nodes.clone(), root: call, family: Family::Elements };
     let describe_arg = || format!("jet {} on argument {}", name, arg.show_short(&s));
     let probe_redeem = build_redeem(&probe, false, &witnesses).map_err(|e| harness_error(format!("probe program of {}: {:?}", describe_arg(), e)))?;
